@@ -24,6 +24,11 @@ def genDerivs {α : Type} [R α] : Derivs α where
   dmdsy := Gen.C04.dmdsy
   dmdtheta := Gen.C04.dmdtheta
 
+/-- `lmfit_jacobian` as the driver executes it: the regenerated pipeline run by the fixed glue -/
+def lmfitJacGen {α : Type} [R α] (rows : List (List α)) (npix : Nat) (errs : Option (List α))
+    (B : Option (List (List α))) : List (List α) :=
+  runOps Gen.C04.lmjOp (Gen.C04.lmjLen 0) rows npix errs B
+
 /-- all `(i, p)` keys of an `n`-component model, component-major -/
 def keys (n : Nat) : List (Nat × Par) := (List.range n).flatMap (fun i => Par.all.map (fun p => (i, p)))
 
